@@ -62,6 +62,16 @@ def run(ctx):
     for t, a, b in zip(ts, mi[0::3], again):
         if a != b:
             ctx.fail("shape_name of one shape differs between two calls", "gen_name\t" + t, [a, b])
+    # determinism of the rendered text itself: the same shapes rendered again in other processes (another
+    # hash seed, another allocation pattern) must give byte-identical text
+    for rnd in range(2):
+        again = ctx.impl(["gen_render\t" + t for t in ts[:3000]])
+        for t, a, b in zip(ts, mi[2::3], again):
+            if a != b:
+                ctx.fail("rendering the same shape twice (two processes) gives different text", "gen_render\t" + t,
+                         {"first": genlib.text_of(a)[:300] if a.startswith("TEXT ") else a[:100],
+                          "second": genlib.text_of(b)[:300] if b.startswith("TEXT ") else b[:100]})
+                break
     coll = [(genlib.text_of(n), v) for n, v in names.items() if len(v) > 1]
     ctx.notes["name_collisions_found"] = len(coll)
     for n, v in coll[:1]:
@@ -126,6 +136,9 @@ def run(ctx):
         if ci["ret"] == "OK" and ss is not None and not all(valid.get(t, True) for t in ss):
             ctx.fail("a source that is not valid JSON (serde_json rejects it) did not yield an error; an output file was written",
                      il, {"sources": ss}, known="F2gen")
+        if ci["ret"] == "OK" and infres.startswith("ERR"):
+            ctx.fail("unreadable / invalid / empty sources did not yield an error (a file was written)", il,
+                     {"result": a[:200], "files": sorted(ci["files"])})
         if ci["ret"] == "OK":
             if ci["det"] is not True:
                 ctx.fail("two runs in one process differ", il, a)
